@@ -726,6 +726,7 @@ var burnScenario = ledger.Scenario{
 		p.Steps = mix(r.Child("mix"), p.Steps, genBridge(r.Child("bridge"), p, tier, true, r.Intn(3) == 0))
 	},
 	Setup: func(w *ledger.World, r *ledger.Runner) []ledger.Observer {
+		setupRaw(w, r)
 		setupBridge(w, r)
 		return []ledger.Observer{newBurnOracle()}
 	},
@@ -739,6 +740,7 @@ var mintScenario = ledger.Scenario{
 		p.Steps = mix(r.Child("mix"), p.Steps, genBridge(r.Child("bridge"), p, tier, r.Intn(3) == 0, true))
 	},
 	Setup: func(w *ledger.World, r *ledger.Runner) []ledger.Observer {
+		setupRaw(w, r)
 		setupBridge(w, r)
 		return []ledger.Observer{newMintOracle()}
 	},
